@@ -403,6 +403,20 @@ pub fn main(args: &util::Args) {
             sink.put(&out);
         }
     }
+    // ---- negatives: overlapping / first-class method forms the typer does not accept (must be rejected
+    // by the typer, never panic, never reach mono)
+    for (name, src) in NEGATIVES {
+        let id = format!("neg:{}", name);
+        sink.begin(&id);
+        let st = run_in(&dir, src);
+        let mut out = String::new();
+        writeln!(out, "{}\tSRC\t{}", id, esc_line(src)).unwrap();
+        match &st.stop {
+            None => writeln!(out, "{}\tNEG\taccepted\t\t", id).unwrap(),
+            Some((k, stage, m)) => writeln!(out, "{}\tNEG\t{}\t{}\t{}", id, k, stage, esc_line(m)).unwrap(),
+        }
+        sink.put(&out);
+    }
     // ---- stream 3: generated programs (G-prog, rich generics)
     let total = args.n.unwrap_or(if args.tier == "thorough" { 2500 } else { 300 });
     let mut feats_total: std::collections::BTreeMap<&'static str, usize> = Default::default();
@@ -608,6 +622,7 @@ pub fn gen_cfg(i: usize) -> crate::progen::Cfg {
         vec_generics: i % 5 != 0,
         dyn_generics: i % 2 == 0,
         generic_fn_values: false,
+        overlapping_impls: i % 3 != 1,
         ..Default::default()
     }
 }
@@ -629,3 +644,12 @@ pub fn debug_traits(path: &str) {
         }
     }
 }
+
+/// forms next to the overlapping impls of the rich-generics library that goml does not have
+const NEGATIVES: &[(&str, &str)] = &[
+    ("generic-trait-impl-overlap", "struct Bx[T] { v: T }\ntrait Show { fn show(Self) -> string; }\nimpl[T] Show for Bx[T] { fn show(self: Bx[T]) -> string { \"bx\" } }\nimpl Show for Bx[int32] { fn show(self: Bx[int32]) -> string { \"bx-int\" } }\nfn main() -> unit { let a: Bx[int32] = Bx { v: 1 }; string_println(Show::show(a)) }\n"),
+    ("generic-trait-impl", "struct Bx[T] { v: T }\ntrait Show { fn show(Self) -> string; }\nimpl[T] Show for Bx[T] { fn show(self: Bx[T]) -> string { \"bx\" } }\nfn main() -> unit { let a: Bx[int32] = Bx { v: 1 }; string_println(Show::show(a)) }\n"),
+    ("method-value", "struct Bx[T] { v: T }\nimpl[T] Bx[T] { fn tag(self: Bx[T]) -> string { \"bx\" } }\nimpl Bx[int32] { fn tag(self: Bx[int32]) -> string { \"bx-int\" } }\nfn main() -> unit { let a: Bx[int32] = Bx { v: 1 }; let m = a.tag; string_println(m()) }\n"),
+    ("path-with-type-arguments", "struct Bx[T] { v: T }\nimpl[T] Bx[T] { fn tag(self: Bx[T]) -> string { \"bx\" } }\nimpl Bx[int32] { fn tag(self: Bx[int32]) -> string { \"bx-int\" } }\nfn main() -> unit { let a: Bx[int32] = Bx { v: 1 }; string_println(Bx[int32]::tag(a)) }\n"),
+    ("duplicate-exact-impl-method", "struct Bx[T] { v: T }\nimpl Bx[int32] { fn tag(self: Bx[int32]) -> string { \"a\" } }\nimpl Bx[int32] { fn tag(self: Bx[int32]) -> string { \"b\" } }\nfn main() -> unit { let a: Bx[int32] = Bx { v: 1 }; string_println(a.tag()) }\n"),
+];
